@@ -76,9 +76,9 @@ func (e *Exec) wd(kind string) time.Duration {
 	case "runsync":
 		switch {
 		case !confirmed:
-			return 20 * time.Second
+			return 12 * time.Second
 		case e.rerun:
-			return 5 * time.Second
+			return 4 * time.Second
 		}
 		return 1500 * time.Millisecond
 	case "settle":
@@ -86,9 +86,9 @@ func (e *Exec) wd(kind string) time.Duration {
 		// long after a missed wake-up
 		switch {
 		case !confirmed:
-			return 20 * time.Second
+			return 15 * time.Second
 		case e.rerun:
-			return 10 * time.Second
+			return 9 * time.Second
 		}
 		return 7 * time.Second
 	case "park":
